@@ -173,6 +173,12 @@ func (rp *HTTPReverseProxy) Register(routeCfg RouteConfig) error {
 	return nil
 }
 
+// CloseIdleConnections closes the pooled idle connections to the backends (work connections). Routes of a load
+// balancing group are removed by the group controller, not through UnRegister: their proxies call this when they close.
+func (rp *HTTPReverseProxy) CloseIdleConnections() {
+	rp.transport.CloseIdleConnections()
+}
+
 // UnRegister unregister route config by domain and location
 func (rp *HTTPReverseProxy) UnRegister(routeCfg RouteConfig) {
 	rp.vhostRouter.Del(routeCfg.Domain, routeCfg.Location, routeCfg.RouteByHTTPUser)
